@@ -135,6 +135,7 @@ extern "C" int LLVMFuzzerTestOneInput(const uint8_t *data, size_t size)
 	int flags = fdp.ConsumeIntegralInRange<int>(0, 3);
 	int mmsel = fdp.ConsumeIntegralInRange<int>(0, 4);
 	bool custom = fdp.ConsumeBool();
+	if (flags & CDS_LFHT_AUTO_RESIZE) custom = true;	// the asynchronous destroy of an AUTO_RESIZE table is only observable through the allocator: needed to keep iterations independent
 	int invalid = fdp.ConsumeIntegralInRange<int>(0, 15);	// 1..3: make one parameter a non power of two
 	if (invalid == 1) init += 1 + (init > 1); else if (invalid == 2) mn = mn * 3 + (mn == 1 ? 2 : 0); else if (invalid == 3 && mx) mx = mx * 3 + (mx == 1 ? 2 : 0);
 	if (invalid == 1 && (init & (init - 1)) == 0) init = 3;
@@ -351,7 +352,7 @@ extern "C" int LLVMFuzzerTestOneInput(const uint8_t *data, size_t size)
 	int r = cds_lfht_destroy(ht, NULL);
 	if (r) fail("cds_lfht_destroy of an empty table returned %d", r);
 	urcu_mb_synchronize_rcu();
-	if (flags & CDS_LFHT_AUTO_RESIZE) { urcu_mb_barrier(); for (int i = 0; i < 400 && custom; i++) { { std::lock_guard<std::mutex> g(rec_mu); if (live_allocs.empty()) break; } usleep(500); } }
+	if (flags & CDS_LFHT_AUTO_RESIZE) { urcu_mb_barrier(); for (int i = 0; i < 4000 && custom; i++) { { std::lock_guard<std::mutex> g(rec_mu); if (live_allocs.empty()) break; } usleep(500); } }
 	if (mmsel == 4) { for (int i = 0; i < 4000 && glue_rec_outstanding(); i++) usleep(250); if (glue_rec_outstanding()) fail("recording bucket allocator: %d bucket levels never freed after cds_lfht_destroy", glue_rec_outstanding()); }
 	glue_set_destroying(0);
 	if (custom) {
